@@ -221,7 +221,7 @@ func c09(p *P) {
 				}
 				mu := "&$0.mu"
 				if f.Parent() != nil {
-					mu = "&^cs.mu"
+					mu = "&$^0.mu"
 				}
 				r.Check(heldAt(f, in, mu, true), "C09.R4", funcName(f)+": subscribers accessed under the write lock", p.c.InstrPos(in), "held", "subscribers map touched without the exclusive lock")
 			}
@@ -337,25 +337,28 @@ func c09(p *P) {
 
 // mustPassTo: along executable edges of s, is `target` reachable from entry without passing any `via` instruction?
 func mustPassTo(fn *ssa.Function, s *SCCP, via []ssa.Instruction, target ssa.Instruction) (bool, string) {
-	block := map[int]bool{}
+	block := map[*VNode]bool{}
 	for _, v := range via {
-		block[v.Block().Index] = true
+		if n := s.vf.nodeOf[v]; n != nil {
+			block[n] = true
+		}
 	}
-	seen := map[int]bool{}
-	q := []int{0}
+	tn := s.vf.nodeOf[target]
+	seen := map[*VNode]bool{}
+	q := []*VNode{s.entryNode()}
 	for len(q) > 0 {
 		cur := q[0]
 		q = q[1:]
-		if seen[cur] || block[cur] {
+		if cur == nil || seen[cur] || block[cur] {
 			continue
 		}
 		seen[cur] = true
-		if cur == target.Block().Index {
-			return false, fmt.Sprintf("b%d reached", cur)
+		if cur == tn {
+			return false, fmt.Sprintf("n%d reached", cur.Idx)
 		}
-		for _, su := range fn.Blocks[cur].Succs {
-			if s.edge[[2]int{cur, su.Index}] {
-				q = append(q, su.Index)
+		for _, su := range cur.Succs {
+			if s.edge[[2]int{cur.Idx, su.Idx}] {
+				q = append(q, su)
 			}
 		}
 	}
